@@ -80,6 +80,23 @@ def gen_fan(rnd, *, max_items=8, allow_fail=True, allow_exhaust=True, hitl=False
     return spec
 
 
+def gen_waitretry(rnd):
+    """a delayed retry is pending while waits with SHORTER timeouts are pending too (and possibly a workflow timeout): the wakeup
+    heap's head is not the retry; nothing is queued or running in between, so only the heap tells that the run is not idle"""
+    from vf import idle_cases as ic
+
+    d = rnd.choice([2.0, 3.0, 5.0])
+    t = rnd.choice([0.5, 1.0, 1.5])
+    spec, _keys = ic.gen_program(rnd, n=rnd.randint(1, 2), waiter_timeout=t, retry_delay=d)
+    for it in spec["steps"][0]["acts"][0]["items"]:
+        it["lat"] = [0]
+    spec["family"] = "waitretry"
+    spec["timeout"] = rnd.choice([None, 60.0])
+    spec["responders"] = []
+    spec["meta"].update({"style": "none", "timeout": t, "req": True, "may_wait_forever": False})
+    return spec
+
+
 def gen_selfwait(rnd):
     """the waiting step itself ACCEPTS the type it waits for (a chat / pairing step: `pair(ev: EvD | Answer)` doing
     `wait_for_event(Answer, requirements=...)`): an Answer that resolves one of its waits is that wait's result and no new input for
